@@ -259,7 +259,13 @@ def unhexlist(tok: str) -> list[str]:
 def run_driver(lines: list[str], timeout: int = 600) -> list[str]:
     """Pipe protocol lines to the compiled Lean model driver; one output line per input line."""
     if not DRIVER_BIN.exists():
-        raise RuntimeError(f"model driver not built: {DRIVER_BIN}")
+        # another build in the same Lean project may be relinking the executable right now
+        with lake_lock():
+            if not DRIVER_BIN.exists():
+                subprocess.run(["lake", "build", "driver"], cwd=LEAN_DIR, capture_output=True, text=True,
+                               timeout=1800, env=_clean_env())
+        if not DRIVER_BIN.exists():
+            raise RuntimeError(f"model driver not built: {DRIVER_BIN}")
     data = "\n".join(lines) + "\n"
     proc = subprocess.run(
         [str(DRIVER_BIN)], input=data, capture_output=True, text=True, timeout=timeout
